@@ -1,6 +1,6 @@
 SPECIFICATION Spec
 CONSTANTS
-  RootP <- DefaultRootP
+  RootName = {1080}
   GenToks = {"a", "sub", "d", "index", "empty", "dot", "dotdot", "r", "r2", "rx", "o", "pdotdot", "pslash", "nul", "absroot", "absr2"}
   PathLen = 3
   MaxReq = 1
